@@ -41,6 +41,78 @@ PINNED = {
 }
 
 
+def _collection_branch(fi):
+    for st in fi.node.body:
+        if isinstance(st, ast.If) and "collection" in src(st.test) and "None" in src(st.test) and isinstance(st.test, ast.Compare) and isinstance(st.test.ops[0], ast.IsNot):
+            return st
+    return None
+
+
+def _label_form(ctx, fi):
+    """Grouped referencing without recursion: traces are labelled once with np.unique(collection, return_inverse=True); the reference of a group must be computed from
+    the group's MEMBERS (x[labels == i], np.add.at(ref, labels, x)) and subtracted through the same labels.  np.add.reduceat(x, first_occurrence) sums positional blocks
+    x[first[i]:first[i+1]] (numpy model): that is the group only when the collection is sorted.  -> False when car is not written this way."""
+    br = _collection_branch(fi)
+    if br is None:
+        return False
+    du = DefUse(fi.node)
+    uq = [st for st in br.body if isinstance(st, ast.Assign) and isinstance(st.value, ast.Call) and call_name(st.value) == "unique" and st.value.args and loc_name(st.value.args[0]) == "collection"]
+    if not uq:
+        return False
+    st = uq[0]
+    kws = {k.arg: (isinstance(k.value, ast.Constant) and k.value.value is True) for k in st.value.keywords}
+    order = ["unique"] + [n for n in ("return_index", "return_inverse", "return_counts") if kws.get(n)]
+    tg = st.targets[0].elts if isinstance(st.targets[0], ast.Tuple) else [st.targets[0]]
+    if len(tg) != len(order) or not kws.get("return_inverse"):
+        return False
+    names = {o: loc_name(t) for o, t in zip(order, tg)}
+    lab, first, cnt = names.get("return_inverse"), names.get("return_index"), names.get("return_counts")
+    data = fi.params[0]
+    stmts = [n for b in br.body for n in ast.walk(b)]
+    # positional-block reductions with the first occurrences
+    for c in stmts:
+        if isinstance(c, ast.Call) and isinstance(c.func, ast.Attribute) and c.func.attr == "reduceat" and len(c.args) >= 2:
+            idx = expand_name(du, c.args[1], c)
+            if first is not None and (loc_name(c.args[1]) == first or first in {n.id for n in ast.walk(idx) if isinstance(n, ast.Name)}):
+                srt = any(isinstance(k, ast.Call) and call_name(k) in ("argsort", "sort", "lexsort") for k in stmts)
+                ctx.check(srt, fi, c, c, "segmented reduction over first occurrences only after the traces were put in collection order",
+                          f"`{src(c)[:90]}` sums the positional blocks x[{first}[i]:{first}[i+1]] (np.ufunc.reduceat), which are the groups only when `collection` is sorted: "
+                          "for interleaved groups (e.g. shanks in raw channel order) the reference subtracted from a trace mixes other groups - referencing no longer honours its groups",
+                          key="car:reduceat", name_free=True)
+    # member-based references
+    member = []
+    for c in stmts:
+        if isinstance(c, ast.Subscript) and loc_name(c.value) == data:
+            el = c.slice.elts if isinstance(c.slice, ast.Tuple) else [c.slice]
+            if isinstance(el[0], ast.Compare) and loc_name(el[0].left) == lab and isinstance(el[0].ops[0], ast.Eq):
+                member.append(c)
+        if isinstance(c, ast.Call) and isinstance(c.func, ast.Attribute) and c.func.attr == "at" and len(c.args) == 3 and loc_name(c.args[1]) == lab and loc_name(c.args[2]) == data:
+            tgt = loc_name(c.args[0])
+            zero = any(d.kind == "assign" and isinstance(d.value, ast.Call) and call_name(d.value) in ("zeros", "zeros_like") for d in du.defs if d.var == tgt) or \
+                any(isinstance(m.stmt, ast.Assign) and isinstance(m.stmt.targets[0], ast.Subscript) and loc_name(m.stmt.targets[0].value) == tgt and const_value(m.stmt.value) == (True, 0)
+                    and du.cfg.reachable(m.node, du.cfg.node_for(c)) for m in du.defs if m.var == tgt and m.kind == "mutate")
+            ctx.check(zero, fi, c, c, "sums accumulated by label start from zero", f"`{src(c)[:80]}` accumulates into `{tgt}`, which is not zero-initialised", key="car:add-at", name_free=True)
+            member.append(c)
+    ctx.check(bool(member), fi, br, f"{len(member)} member-based group reference(s) through `{lab}`", "group references are computed from the group's members (labels of np.unique(return_inverse))",
+              "no group reference is computed from the members of the group (x[labels == i] / np.add.at(ref, labels, x))", key="car:members", name_free=True)
+    # subtraction through the same labels
+    sub = [r for r in returns_of(fi.node) if any(r is x for b in br.body for x in ast.walk(b)) and r.value is not None and find(r.value, ast.BinOp, lambda b: isinstance(b.op, ast.Sub))]
+    oks = False
+    for r in sub:
+        for b in find(r.value, ast.BinOp, lambda b: isinstance(b.op, ast.Sub)):
+            rt = expand_name(du, b.right, r)
+            if loc_name(b.left) == data and ((isinstance(rt, ast.Call) and call_name(rt) == "take" and len(rt.args) >= 2 and loc_name(rt.args[1]) == lab and const_value(kwarg(rt, "axis")) == (True, 0))
+                                             or (isinstance(rt, ast.Subscript) and loc_name(rt.slice if not isinstance(rt.slice, ast.Tuple) else rt.slice.elts[0]) == lab)):
+                oks = True
+    ctx.check(oks, fi, sub[0] if sub else br, sub[0] if sub else "return", "each trace gets the reference of its own label subtracted",
+              "the references are not subtracted through the labels they were computed for", key="car:subtract", name_free=True)
+    # operator table inside the branch: 'median' -> median of members, 'average' -> mean / sum over counts
+    txt = src(br)
+    ctx.check("'median'" in txt and "median(" in txt and "'average'" in txt, fi, br, "operator branches inside the collection branch", "both operators are implemented for groups",
+              "the grouped branch does not implement both operators", key="car:group-ops", name_free=True)
+    return True
+
+
 def d1_forwarding(ctx):
     ctx.rule("D1", "per-collection recursion forwards every setting, passes collection=None, scatters into the rows it gathered")
     repo = ctx.repo
@@ -50,6 +122,9 @@ def d1_forwarding(ctx):
         du = DefUse(fi.node)
         cfg = du.cfg
         rec = resolved_calls(repo, fi, q)
+        if not rec and name == "car" and _label_form(ctx, fi):
+            ctx.shared["C05.car_label_form"] = True
+            continue
         if not rec:
             ctx.violation(fi, fi.node, f"{name}(..., collection=None)", "grouped filtering no longer recurses per group (collection is ignored?)", key="no-recursion:" + name)
             continue
@@ -324,7 +399,11 @@ def d4_car_table(ctx):
     du = DefUse(fi.node)
     # every value the function can return, with the branch predicates under which it is returned
     table = []
+    brc = _collection_branch(fi) if ctx.shared.get("C05.car_label_form") else None
+    inside = {id(x) for b in (brc.body if brc is not None else []) for x in ast.walk(b)}
     for r in returns_of(fi.node):
+        if id(r) in inside:
+            continue   # grouped branch written with labels: decided by D1's label-form clauses
         if r.value is None:
             ctx.violation(fi, r, r, "car returns nothing on this path", key="car:ret")
             continue
